@@ -47,7 +47,8 @@ def enumerate_skeletons(max_stmts=4, max_d=3, max_len=2, loop_else=False, funcs=
 
 
 class Decorator:
-    def __init__(self, rnd, names=('x', 'y'), simple_tests=0.8, closure_bias=False, balanced_exc=False, contexts=None):
+    def __init__(self, rnd, names=('x', 'y'), simple_tests=0.8, closure_bias=False, balanced_exc=False, contexts=None, init=0.7):
+        self.init = init
         self.contexts = mp.CONTEXTS if contexts is None else contexts
         self.cx = mp.Contexts(rnd, names)
         self.pexc = 0.5 if balanced_exc else 0.85      # probability of class E1 for raise statements and handlers
@@ -90,9 +91,10 @@ class Decorator:
         self.pos = 0
         self.toks = toks
         scope = self.names + ['a', 'b']
-        b.fns[0]['body'] = self.block(b, 1, scope)
+        body = self.block(b, 1, scope)
         if self.pos != len(toks):
             raise common.MachineryError('skeleton not consumed: %r' % (toks,))
+        b.fns[0]['body'] = mp.initial_assignments(b, self.r, self.names, self.init) + body
         return b.finish()
 
     def _reads_of(self, b, e):
